@@ -107,13 +107,15 @@ fuzz_target!(|data: &[u8]| {
 	copy_dir(&b.dir, &img).expect("copy");
 	let mut touched = false;
 	for (kind, a, c, d, e) in input.damage.iter().take(4) {
-		let dmg = match kind % 8 {
+		let dmg = match kind % 10 {
 			0 => Damage::Truncate(*a, *c),
 			1 | 2 => Damage::Flip(*a, *c, (*d).max(1)),
 			3 => Damage::Overwrite(*a, *c, (*d % 63) + 1, *e),
 			4 => Damage::Append(*a, (*c % 3000) + 1, *e),
 			5 => Damage::DeleteLast((*d % 3) + 1),
 			6 => Damage::Duplicate(*a),
+			7 => Damage::SetByte(*a, *c, *d % 9),
+			8 => Damage::Forge(*a, *c, (*d >> 4) % 11, *d & 15),
 			_ => Damage::Swap(*a, *c),
 		};
 		let _ = apply_damage(&img, &dmg, b.info.last_enacted_record, &mut touched);
